@@ -13,6 +13,9 @@ pub const SUT_NAME: &str = "sut@suthost";
 pub const PEER_NAME: &str = "peer@peerhost";
 pub const PEER_ADDR: &str = "peerhost:5555";
 pub const COOKIE: &str = "simcookie";
+/// A second remote node some runs connect to as well (EPMD stub: alive "other", port 5556).
+pub const OTHER_NAME: &str = "other@otherhost";
+pub const OTHER_ADDR: &str = "otherhost:5556";
 
 pub type PeerFuture = Pin<Box<dyn Future<Output = ()> + Send>>;
 
@@ -29,10 +32,18 @@ pub fn install_conforming_peer<F>(w: &Arc<World>, net: NetCfg, peer_flags: u64, 
 where
     F: Fn(Arc<World>, ServerConn, HsSeen) -> PeerFuture + Send + Sync + 'static,
 {
+    install_conforming_peer_at(w, PEER_ADDR, PEER_NAME, net, peer_flags, after)
+}
+
+/// The same for a node of another name at another address.
+pub fn install_conforming_peer_at<F>(w: &Arc<World>, addr: &str, name: &'static str, net: NetCfg, peer_flags: u64, after: F)
+where
+    F: Fn(Arc<World>, ServerConn, HsSeen) -> PeerFuture + Send + Sync + 'static,
+{
     let after = Arc::new(after);
     install_peer(
         w,
-        PEER_ADDR,
+        addr,
         net,
         |_| 0,
         move |w: &Arc<World>, mut conn: ServerConn| {
@@ -40,7 +51,7 @@ where
             let w = w.clone();
             let params = HsParams {
                 cookie: COOKIE.to_string(),
-                peer_name: PEER_NAME.to_string(),
+                peer_name: name.to_string(),
                 peer_flags,
                 peer_challenge: 0x1234_5678 ^ conn.conn_index as u32,
                 peer_creation: 99,
